@@ -38,6 +38,13 @@ def run(ctx):
     ctx.assumptions = ['Kani stubs: none; unwinding assertions on; memory-safety checks on', 'mirsym codec-primitive models (validated against the real crate under C07)']
     # ---- engine K
     failed = run_kani(ctx, QUICK + (THOROUGH_EXTRA if T else []), 900 if T else 300, 'lib.encode_to == reference encoder')
+    if failed:
+        # a failed Kani harness is decisive on its own: confirm it natively before the (possibly no longer applicable) MIR part runs
+        a = ctx.get_native().ask({'op': 'layout_battery', 'seed': ctx.seed})
+        if a.get('failed'):
+            ctx.report_case({'what': 'layout', 'kani_failed': [(f['harness'], f.get('failed_checks')) for f in failed], 'native': a['failed'][:3]}, True, None)
+            return finish(ctx, 'model_checking', 'Kani differential harness failed and the native layout battery reproduces a difference from the reference encoder/decoder.',
+                          extra_cov={'kani': [{k: r.get(k) for k in ('harness', 'verdict', 'wall_s', 'solver_s')} for r in getattr(ctx, 'kani', [])], 'states': 1, 'transitions': 1})
     # ---- engine M
     cexs = c07.run_plan(ctx, ('C06',), ('ref_encode', 'ref_decode'))
     c07.finish_cases(ctx, cexs, ('C06',))
